@@ -707,3 +707,49 @@ def r8_shift_amounts(ctx):
 
 
 RULES += [r8_shift_amounts]
+
+
+def r9_interval_to_wrapped(ctx):
+    ctx.rule("C13.r9", "mk_winterval(lb, ub, w): the bounds of an integer interval are reduced modulo 2^w only under a test that the "
+             "interval has fewer than 2^w elements (ub - lb compared with a quantity derived from the width); otherwise the result "
+             "is top - [0,300] at width 8 is every bit pattern, not [0,44]", floor=1)
+    fs = [f for f in ctx.db.fns(WII, name="mk_winterval") if len(f.get("params", [])) == 3]
+    if not ctx.need(fs, "wrapped_interval::mk_winterval(lb, ub, width)", "C13.r9"):
+        return
+    seen = set()
+    for fn in fs:
+        if fn.get("cls") in seen:
+            continue
+        seen.add(fn.get("cls"))
+        body = fn["body"]
+        lb, ub, wd = [p["id"] for p in fn["params"]]
+        g = paths.guards(body)
+        for r in rets(body):
+            v = r.get("v")
+            wr = [c for c in walk(v) if c.get("k") == "ctor" and callee(c) and callee(c)["name"] == "wrapint"]
+            uses = {y.get("id") for c in wr for y in walk(c) if y.get("k") == "ref"}
+            if not (lb in uses and ub in uses):
+                continue
+
+            def span_test(c):
+                c = strip(c)
+                pp = cmp_parts(c)
+                if not pp or pp[0] not in (">=", ">", "<", "<="):
+                    return 0
+                for a, b in ((pp[1], pp[2]), (pp[2], pp[1])):
+                    a = strip(a)
+                    is_span = isinstance(a, dict) and ((a.get("k") == "call" and a.get("op") == "-") or (a.get("k") == "bin" and a.get("op") == "-")) and \
+                        {y.get("id") for y in walk(a) if y.get("k") == "ref"} >= {lb, ub}
+                    if is_span and any(y.get("k") == "ref" and y.get("id") == wd for y in walk(b)):
+                        return 1
+                return 0
+            has = any(span_test(c) for c, p in g.get(id(r), ()) if not isinstance(c, tuple))
+            if has:
+                ctx.ok("mk_winterval: bounds wrapped only after the size test", fn, r)
+            else:
+                ctx.bad("wrapped_interval::mk_winterval(lb, ub, width) wraps the two bounds independently without testing that ub - lb is "
+                        "below 2^width: set(x:int8, [0,300]) stores [0,44]_8 although every bit pattern is possible", fn, r,
+                        sig="interval-wrapped-without-size-test")
+
+
+RULES += [r9_interval_to_wrapped]
